@@ -97,6 +97,8 @@ pub enum Op {
     /// kill: all acknowledged bytes are in the files / page cache, nothing was synced or dumped on the way out), then a new
     /// one is built on the directory and initialised
     Abandon { lazy: bool },
+    /// `init()` called once more on the storage object that is already initialised (a public call like any other)
+    InitAgain,
     /// a query whose answer is not looked at (the checks after the step do that): 0 read, 1 read_all_with_deletion_marker
     /// with every entry loaded, 2 contains, 3 read_with(first pool meta), 4 check_filters. Exists so that queries can be
     /// cancellation victims and concurrent partners
@@ -127,6 +129,7 @@ impl Op {
             Op::Cancel { .. } => "cancel",
             Op::Probe { .. } => "probe",
             Op::Abandon { .. } => "abandon",
+            Op::InitAgain => "init_again",
         }
     }
 }
@@ -299,6 +302,8 @@ fn ts_strategy(span: u64) -> BoxedStrategy<u64> {
         12 => 0..span,
         1 => Just(TS_MAX),
         1 => Just(TS_MAX - 1),
+        // values around the 31 / 32 / 63-bit boundaries: a narrowed or signed comparison orders them wrongly
+        1 => prop::sample::select(vec![(1u64 << 31) - 1, 1u64 << 31, (1u64 << 32) - 1, 1u64 << 32, (1u64 << 32) + 1, (1u64 << 63) - 1, 1u64 << 63, (1u64 << 63) + 1]),
     ]
     .boxed()
 }
@@ -506,6 +511,7 @@ pub fn render_ops(ops: &[Op]) -> Vec<String> {
             Op::Offload { level, need } => format!("offload(l{}, needed={})", level, offload_needed(*need)),
             Op::Cancel { victim, k } => format!("cancel({} after {})", victim.name(), k),
             Op::Abandon { lazy } => format!("drop-without-close+init(lazy={})", lazy),
+            Op::InitAgain => "init() again on the same object".to_string(),
             Op::Probe { key, kind } => format!("probe(k{}, {})", key, ["read", "read_all_dm+load", "contains", "read_with", "check_filters"][(*kind as usize).min(4)]),
             Op::Burst { n, vlen } => format!("burst({}x{})", n, fmt_vlen(*vlen)),
             Op::CrashReopen { lazy, damage } => format!("crash_reopen(lazy={},{:?})", lazy, damage.iter().map(|d| format!("{:?}", d.kind)).collect::<Vec<_>>()),
